@@ -7,11 +7,11 @@ TECH = "deterministic simulation with fault injection (seeded whole-system simul
 CHECKS = {
  "C01": ("router family, arm garbage: malformed client input on every listener kind and malformed upstream replies; oracle: child process must not die (panic/fatal = violation with stack); valid probe queries on fresh transports of every listener (single or bursts of up to 12 with segmented frames) 1.5 s and 10 s after the last garbage input are answered with their own id and question; a run whose SIGQUIT dump shows a goroutine spinning in repository code is a hang; in 40 % of runs the buffer-pool facade lets a detected double release through to the real pool so that its consequences show",
          "gnet engine is a stub with ported buffer semantics; udp.multi_routes ancillary-data parsing is not reached; redis replies are not byte strings here (client library stubbed)"),
- "C02": ("router family: answers with binary labels, shared suffixes, SRV/SOA/MX/unknown types, compression layouts; client-visible response is decoded by an independent strict codec (refdns) and compared record by record with the regenerated upstream original (names octet-exact, RDATA names decompressed, unknown types byte for byte, TTL on the fresh path, header bits AA/AD/CD/rcode); a response an independent decoder rejects is a codec failure; arm garbage mixes cut-short upstream answers and malformed queries with the valid traffic; answer shape with names first occurring beyond offset 16383",
+ "C02": ("router family: answers with binary labels, shared suffixes, SRV/SOA/MX/unknown types, compression layouts; client-visible response is decoded by an independent strict codec (refdns) and compared record by record with the regenerated upstream original (names octet-exact, RDATA names decompressed, unknown types byte for byte, TTL on the fresh path, header bits AA/AD/CD/rcode); a response an independent decoder rejects is a codec failure; arm garbage mixes cut-short upstream answers and malformed queries with the valid traffic; answer shape with names first occurring beyond offset 16383; arm codec drives dnsmsg.UnpackMsg / Msg.Pack (no size limit, both compression modes) directly with a history of generated messages (every shape, OPT at any position, cut-short ones in between, several decoded messages alive at a time) under the pool facades: re-encoding decoded by the independent codec equals the original record by record in order, uncompressed length == Len()",
          "the comparison base is the harness's own generator + codec; the 'uncompressed encoding has exactly the advertised length' clause is only seen indirectly (cache stores failing)"),
  "C03": ("router family, arms clean/faults: every decodable QR=0 query on udp/tcp/gnet/tls/http/fasthttp/https listeners x upstream outcomes (reply, error rcodes, garbage, FIN/RST, silence, loss/dup on datagram links): exactly one response within 6 s + 1 s, ID/opcode/QR/RA/RD/question, NOTIMP / REFUSED (reference rule evaluation) / SERVFAIL classes",
          "fake upstreams echo the question they received; client links fault-free; limiter off; idle_timeout >= 8 s"),
- "C04": ("router family, high concurrency, yields at lock sites, GC events, tiny/ample/no cache, UDP batches: every record of every response must come from the answer the selected upstream generated for that response's own (token, class, type) and serial (metadata record + upstream log); arm prefetch (background refreshes next to unrelated traffic), arm late (replies after the transports' 6 s I/O limit on connections that are then reused)",
+ "C04": ("router family, high concurrency, yields at lock sites, GC events, tiny/ample/no cache, UDP batches: every record of every response must come from the answer the selected upstream generated for that response's own (token, class, type) and serial (metadata record + upstream log); arm prefetch (background refreshes next to unrelated traffic), arm late (replies after the transports' 6 s I/O limit on connections that are then reused); repeats of a name also ask the neighbouring type (T xor 1) and other classes; records generated for another (class, type) are a violation whatever the question section says",
          "interleavings explored at lock boundaries, blocking operations and network events only"),
  "C05": ("transport family over udp / tcp+pipeline / tls+pipeline: concurrent exchanges with deadlines and cancellations; server replies out of order, delayed, duplicated, with wrong wire id, silent; datagram loss/dup; oracle: returned reply was sent on the exchange's own (connection, wire id), caller id restored, no reply returned twice, wire ids never reused per connection; rare arm (every 1000th run) drives >65536 exchanges through one connection, the last 300 and the overflow in waves of 24 concurrent callers with lock-site yields (retire, never wrap, also when several callers hold the connection at its end of life)",
          "TLS hides wire ids from the network, the fake server's log is used there"),
@@ -21,29 +21,29 @@ CHECKS = {
          "redis is reached through a stub of the client library (no RESP framing); group attribution of a fetch uses the requests pending at that instant"),
  "C08": ("same family with edge TTL vectors (0, 1, 2^32-1), rcodes, TC answers, max TTL, queries around expiry: sound inequalities on every hit (TTL <= max(1, upstream TTL - whole seconds certainly elapsed)), nothing served after lifetime + 2 s, TC answers never served from cache, a negative answer never displaces a live positive entry; arm redis (entries promoted from the second level keep their original expiry)",
          "redis client library stubbed; lifetime policy is the one in the statement; latencies bound the unknown store instant"),
- "C09": ("router family with answers from 400 bytes to >64 KiB, OPT at any position, clients with advertised sizes 0..65535 and stream/HTTP clients: size limit, strict decode (counts = records present, no trailing bytes), TC iff records omitted, OPT kept, kept records an order-preserving subsequence, nothing omitted when the uncompressed size fits",
+ "C09": ("router family with answers from 400 bytes to >64 KiB, OPT at any position, clients with advertised sizes 0..65535 and stream/HTTP clients: size limit, strict decode (counts = records present, no trailing bytes), TC iff records omitted, OPT kept, kept records an order-preserving subsequence, nothing omitted when the uncompressed size fits; answer shape 'tight' (small records of every interpreted type with names that share nothing: the limit falls on any record type without compression slack)",
          "limit 0 and 'limit without compression' are not reachable through a listener"),
- "C10": ("router family with generated rule lists (reverse, reject, forward, no action, shared domain sets): reference first-match evaluation vs which fake upstream saw the token (never another one, also not by prefetch), forwarded question (one question, lower-cased, same class/type, RD=1), client rcode for reject/refused; arm startfault: unknown/duplicate tags, missing tag/addr must make run() fail and leave nothing open; arm cli: the real `router -c <file>` command runs inside the bubble on the YAML rendering of a generated configuration with an unknown key at a seeded mapping node and must exit with the strict decoder's fatal error (control runs without the key must start); every question seen by an upstream must be one some client asked; scheduling points inserted into the rule evaluation and the domain matcher",
+ "C10": ("router family with generated rule lists (reverse, reject, forward, no action, shared domain sets): reference first-match evaluation vs which fake upstream saw the token (never another one, also not by prefetch), forwarded question (one question, lower-cased, same class/type, RD=1), client rcode for reject/refused; arm startfault: unknown/duplicate tags, missing tag/addr must make run() fail and leave nothing open; arm cli: the real `router -c <file>` command runs inside the bubble on the YAML rendering of a generated configuration with an unknown key at a seeded mapping node and must exit with the strict decoder's fatal error (control runs without the key must start); every question seen by an upstream must be one some client asked; scheduling points inserted into the rule evaluation and the domain matcher; names use the whole alphabet including its ends and their ASCII neighbours",
          "the cli arm's rejection verdict is written before the command runs and accepted only together with exit status 1 and the decoder's message on stderr"),
- "C11": ("same runs as C10 with the domain-set generator in front: full:/domain:/bare/regexp: entries, parents/children/duplicates in every order across several files, comments, case; routing outcome must equal the declarative set-based reference",
+ "C11": ("same runs as C10 with the domain-set generator in front: full:/domain:/bare/regexp: entries, parents/children/duplicates in every order across several files, comments, case; routing outcome must equal the declarative set-based reference; labels with the ends of the alphabet, their ASCII neighbours, '_', '*', space and control octets; regexp entries addressing escaped octets (\\DDD) and label lengths",
          "entry files cannot carry every octet (no escapes in the format); regexp entries are generated lower-case"),
- "C12": ("router family: clients with/without OPT, options (cookie, ECS, padding), DO/version bits, odd sizes; upstream replies with OPT and options; ECS on/off; v4, v6, v4-mapped, unknown (abstract unix / header-supplied) client addresses; oracle at the client (OPT iff query had one, no options, TTL field 0, constant size) and at the fake upstream (exactly one OPT, only ECS, exact /24 or /56 prefix of the address the network knows); arm overload: refusals made by a listener itself",
+ "C12": ("router family: clients with/without OPT, options (cookie, ECS, padding), DO/version bits, odd sizes; upstream replies with OPT and options; ECS on/off; v4, v6, v4-mapped, unknown (abstract unix / header-supplied) client addresses; oracle at the client (OPT iff query had one, no options, TTL field 0, constant size) and at the fake upstream (exactly one OPT, only ECS, exact /24 or /56 prefix of the address the network knows); arm overload: refusals made by a listener itself; arm prefetch: the background refresh's ECS is the triggering client's prefix",
          ""),
  "C13": ("router family on tcp/tls/gnet listeners: k=1..40 pipelined frames under seeded segmentation (byte-at-a-time, cuts inside the prefix, coalesced writes), handlers finishing out of order; the client re-parses its inbound byte stream (prefix = body length, every body decodes, id multiset equality); arm overload: burst beyond max_concurrent_queries must be answered REFUSED",
          "gnet engine stub (buffer semantics ported from gnet v2.3.6); TLS records are real"),
- "C14": ("transport family over every simulated upstream kind: refuse / black-hole / silent / half frame / garbage / FIN / RST / partitions / server crash+restart / idle-connection closes, placed by the seed: every ExchangeContext returns by its deadline + 1 s; against a healthy reachable server it succeeds (stale pooled connections are retried); waiters on a reset multiplexed connection leave it within 1 s; dial count bounded; a call never returns a message together with an error",
+ "C14": ("transport family over every simulated upstream kind: refuse / black-hole / silent / half frame / garbage / FIN / RST / partitions / server crash+restart / idle-connection closes, placed by the seed: every ExchangeContext returns by its deadline + 1 s; against a healthy reachable server it succeeds (stale pooled connections are retried); waiters on a reset multiplexed connection leave it within 1 s; dial count bounded; a call never returns a message together with an error; rare arm: >65536 exchanges through one connection, every exchange of the concurrent tail must succeed against the healthy server",
          "quic-go runs as a patched copy (fake-clock fixes, DESIGN.md 2.2)"),
- "C15": ("arm unit: the exported ClientLimiter driven under the fake clock with generated (address, time, cost) histories and configurations (limit, burst, masks present/omitted/out of range) against a textbook token bucket per subnet as the statement defines it (decisions compared except within 1e-6 tokens of the threshold; bound burst + rate x window on the real decisions); arm e2e: router with limiter, heavy and light subnets on udp/tcp/gnet/tls/http(s): admitted queries per subnet obey the bound, refusals are REFUSED / 503 and never forwarded, a subnet far inside its own budget is never refused",
+ "C15": ("arm unit: the exported ClientLimiter driven under the fake clock with generated (address, time, cost) histories and configurations (limit, burst, masks present/omitted/out of range) against a textbook token bucket per subnet as the statement defines it (decisions compared except within 1e-6 tokens of the threshold; bound burst + rate x window on the real decisions); arm e2e: router with limiter, heavy and light subnets on udp/tcp/gnet/tls/http(s): admitted queries per subnet obey the bound, refusals are REFUSED / 503 and never forwarded, a subnet far inside its own budget is never refused (neither by REFUSED / 503 nor by its connection being closed at accept); quic listener included; one query per connection or many queries behind one accepted stream / QUIC connection",
          "idle-bucket garbage collection (entries dropped after a minute) is part of what the unit arm compares"),
- "C16": ("transport family on udp:// with UDP and TCP fake servers on one address: TC on the UDP reply => TCP server sees the question and the caller gets exactly the TCP outcome; no TC => UDP reply returned, TCP untouched; the TCP server closes idle connections between truncated replies (stale pooled connection on the TCP leg); a message returned together with an error is a violation",
+ "C16": ("transport family on udp:// with UDP and TCP fake servers on one address: TC on the UDP reply => TCP server sees the question and the caller gets exactly the TCP outcome; no TC => UDP reply returned, TCP untouched; the TCP server closes idle connections between truncated replies (stale pooled connection on the TCP leg); a message returned together with an error is a violation; a returned message must be the answer to the call's own question (TCP-leg replies later than the 6 s I/O limit are generated)",
          ""),
- "C17": ("arm addr (fault_enumeration-like: the product scheme (10, incl. quic and h3) x host form x port x dial_addr form, 800 combinations, is covered completely by a batch, 24 consecutive combinations per run; udp cases get a second exchange with a truncated UDP reply so that the TCP leg's dial target is checked): dial target recorded by the network facade and SNI/Host seen by a fake server vs values derived from the structured case; arm auth: 180 combinations of upstream kind x server certificate (good, wrong name, other CA, expired, not yet valid, self-signed) x option (ca, none, skip): success iff the reference predicate, and no query reaches an unauthenticated peer; arm mtls: tls/https listeners with verify_client_cert vs clients with acceptable / foreign / no certificate",
+ "C17": ("arm addr (fault_enumeration-like: the product scheme (10, incl. quic and h3) x host form x port x dial_addr form, 800 combinations, is covered completely by a batch, 24 consecutive combinations per run; udp cases get a second exchange with a truncated UDP reply so that the TCP leg's dial target is checked): dial target recorded by the network facade and SNI/Host seen by a fake server vs values derived from the structured case; arm auth: 180 combinations of upstream kind x server certificate (good, wrong name, other CA, expired, not yet valid, self-signed) x option (ca, none, skip): success iff the reference predicate, and no query reaches an unauthenticated peer; arm mtls: tls/https listeners with verify_client_cert vs clients with acceptable / foreign / no certificate, clients that never speak TLS, and clients that continue in plain DNS-over-TCP on the same connection after the handshake was refused",
          "certificates use a fixed epoch matching the bubble's clock"),
  "C18": ("arms latedial (reuse / pipeline / quic transports over an injected dialer whose dial completes after Close), xclose (Close of every upstream kind at a seeded instant, twice, racing dials/exchanges/idle timers), rclose (router close during traffic), startfault (address in use, bad PEM, unknown protocol/scheme, missing file): Close returns within 1 s fake, later exchanges fail within 1 s, exchanges in flight return within 1 s of Close (not at their own deadline), after 150 s grace the simulated network shows no socket owned by the proxy, run() returns an error and leaves nothing open, no panic",
          "arm latedial builds the exported transports directly over an injected dialer that ignores its context (connections whose dial completes after Close must be closed)"),
  "C20": ("arms router / xport / prefetch with yields, stalls, GC events and failing upstreams: (1) a third of the runs of every arm use a -race build of the simulator: a DATA RACE report with a repository frame is a violation; (2) the buffer pool facade poisons on release, quarantines and verifies buffers (write-after-release, double release, aliased hand-out); (3) the object pools of dnsmsg and router (messages, records, questions, request contexts) are a facade that overwrites released objects with recognisable values, detects a second Put and a write while free, and restores them on Get; fake upstreams and the client-side oracle flag either poison pattern on the wire (read-after-release)",
          "race builds randomise scheduling, their replay is best effort; interleavings at lock boundaries / blocking points only"),
- "C19": ("router family, ample cache, lifetimes 4..600 s, bursts of hits in the last quarter from several groups, slow/failing/negative refreshes: hits are answered at once, at most one exchange in flight per (question, group) while the entry is live (for keys whose exchanges all succeed), a completed positive refresh is visible to later hits, the old entry stays usable after a failed refresh; arm prefetch adds unrelated traffic right after the hits",
+ "C19": ("router family, ample cache, lifetimes 4..600 s, bursts of hits in the last quarter from several groups, slow/failing/negative refreshes: hits are answered at once, at most one exchange in flight per (question, group) while the entry is live (for keys whose exchanges all succeed), a completed positive refresh is visible to later hits, the old entry stays usable after a failed refresh (a negative answer to a background refresh must not replace the live entry); arm prefetch adds unrelated traffic right after the hits",
          "the fake upstream cannot tell a transport-level re-send from a refresh, hence the restriction of the single-flight invariant"),
 }
 
